@@ -7,6 +7,7 @@ Views are taken without perturbing anything: __dict__, _instance_traits(),
 __class_traits__, notifier lists, and the driver's own call counters / handler logs.
 Objects are numbered in order of first appearance (oids); scalars have oid 0.
 """
+import collections
 import sys
 import os
 import warnings
@@ -79,6 +80,10 @@ def enc_classes(cs):
 
 def dict_of(content):
     return {content[i]: content[i + 1] for i in range(0, len(content), 2)}
+
+
+class UserList(list):
+    """a list subclass instance as the declared default of an Any trait"""
 
 
 class World:
@@ -185,9 +190,9 @@ class World:
             if k == "KConst":
                 ns[a] = Int(c[0], **md)
             elif k == "KListCopy":
-                ns[a] = Any(list(c), **md)
+                ns[a] = Any(UserList(c) if t.get("subclass") else list(c), **md)
             elif k == "KDictCopy":
-                ns[a] = Any(dict_of(c), **md)
+                ns[a] = Any(collections.OrderedDict(dict_of(c)) if t.get("subclass") else dict_of(c), **md)
             elif k == "KTraitList":
                 ns[a] = List(Int, list(c), **md)
             elif k == "KTraitDict":
@@ -215,6 +220,13 @@ class World:
             # a wildcard trait: every name not defined otherwise (t60, t61, ...) resolves through the prefix trait ""
             ns["_"] = Int(wild["default"])
             for n in wild["static"]:
+                ns["_t%d_changed" % n] = static_handler(n)
+        shared = self.case.get("shared_ct")
+        if shared:
+            ct = Int(shared["value"]).as_ctrait()        # one ready-made CTrait object declared under several names
+            for n in shared["names"]:
+                ns["t%d" % n] = ct
+            for n in shared["static"]:
                 ns["_t%d_changed" % n] = static_handler(n)
         base = type(HasTraits)("Base", (HasTraits,), ns)
         ns2 = {}
@@ -254,6 +266,11 @@ class World:
         notifiers = ct._notifiers(False) or []
         static = any(isinstance(x, StaticTraitChangeNotifyWrapper) for x in notifiers)
         t = {"kind": "KEvent", "content": [], "scalar": 0, "doid": 0, "nnotif": len(notifiers), "static": static}
+        label = getattr(ct, "label", None)
+        if label is not None:
+            # the `label` metadata of the definition, carried in the scalar field (1000 * code): a definition whose
+            # metadata changed is a changed definition
+            t["scalar"] = 1000 * (int(label) if str(label).isdigit() else 999)
         if ct.type == "event" or n is None or n < 0:      # "<name>_items" and trait_added traits
             return t
         dvt, dv = ct.default_value()
@@ -277,7 +294,7 @@ class World:
         elif dvt == 8 and declared is not None and shadow_kind is None:
             q = getattr(getattr(dv, "__func__", dv), "__qualname__", "")
             if q == "BaseTuple._get_default_value":
-                t["kind"], t["content"], t["scalar"] = "KTuple", list(declared["content"]), declared["scalar"]
+                t["kind"], t["content"], t["scalar"] = "KTuple", list(declared["content"]), declared["scalar"] + t["scalar"]
             elif q == "Union._get_default_value":
                 t["kind"], t["content"] = "KUnion", list(declared["content"])
             else:
@@ -374,7 +391,13 @@ class World:
         obj = self.insts[i]
         if k == "Introspect":
             mode = op[2]
-            if mode == 0:
+            if mode >= 100000:
+                # a private copy of a trait definition, then metadata set on the copy: no effect on anybody
+                n, code = (mode - 100000) // 100, mode % 100
+                copy = obj.trait("t%d" % n, copy=True)
+                if copy is not None:
+                    copy.label = str(code)
+            elif mode == 0:
                 obj.copyable_trait_names()
             elif mode == 1:
                 obj.traits(transient=None)
